@@ -255,6 +255,7 @@ func TestC17_P_ConcurrentReads(t *testing.T) {
 			}
 		}
 		g := rapid.IntRange(2, 8).Draw(t, "goroutines")
+		flakyLengthFirst := kind == "hamt-cold-flaky" && rapid.Bool().Draw(t, "flakyLengthFirst")
 		scripts := make([][]c17Op, g)
 		touched := make([]map[cid.Cid]bool, g)
 		for i := range scripts {
@@ -306,6 +307,12 @@ func TestC17_P_ConcurrentReads(t *testing.T) {
 				}
 				if kind == "file-oldstyle-measured" && len(scripts[i]) == 0 {
 					op = c17Op{Kind: "seek-end", A: op.A % int64(len(content)+1)}
+				}
+				if kind == "hamt-cold-flaky" && flakyLengthFirst && len(scripts[i]) == 0 {
+					op = c17Op{Kind: "length"} // every goroutine starts by asking for the length of the cold node
+					for _, c := range tree.ShardsPreOrder() {
+						touched[i][c] = true
+					}
 				}
 				if kind == "hamt-cold-flaky" && op.Kind != "lookup" && op.Kind != "lookup-node" && op.Kind != "lookup-segment" && op.Kind != "length" {
 					// (operations with an error channel of their own, so that "was hit by the fault" can be told per operation)
@@ -475,5 +482,95 @@ func TestC17_R_F9_ConcurrentLookups(t *testing.T) {
 			}(g)
 		}
 		c17Wait(&wg, "F9 regression: 4 goroutines x 200 lookups")
+	}
+}
+
+// One goroutine's load of a child shard takes long (the store holds the request back); meanwhile other goroutines use the
+// same directory node: a lookup that goes through an already loaded shard needs no block at all, one that goes through a
+// third shard needs only that shard's block - neither may wait for the outstanding request. The held request is released
+// only after they have returned, so with a node that serialises its users behind the slow load nobody ever finishes.
+func TestC17_R_SlowLoadDoesNotBlockOtherUsers(t *testing.T) {
+	st := NewStore()
+	var es []entrySpec
+	var names []string
+	for i := 0; i < 400; i++ {
+		names = append(names, fmt.Sprintf("entry-%03d", i))
+		es = append(es, entryFor(names[i], 0))
+	}
+	root, _, err := buildSharded(st, es, 16)
+	if err != nil {
+		t.Fatal(err)
+	}
+	tree, err := st.ShardTree(root)
+	if err != nil {
+		t.Fatal(err)
+	}
+	// three names whose hash paths leave the root through three different child shards
+	byShard := map[cid.Cid]string{}
+	var order []cid.Cid
+	for _, n := range names {
+		if p := tree.HashPath(n); len(p) >= 1 {
+			if _, ok := byShard[p[0]]; !ok {
+				byShard[p[0]] = n
+				order = append(order, p[0])
+			}
+		}
+	}
+	if len(order) < 3 {
+		t.Fatalf("harness: directory has %d child shards below the root", len(order))
+	}
+	slow, warm, third := order[0], order[1], order[2]
+	for _, op := range []string{"lookup", "length", "iterate"} {
+		rn, err := loadReified(st.LinkSystem(), root, "unixfs")
+		if err != nil {
+			t.Fatal(err)
+		}
+		if got := c17RunScript(rn, []c17Op{{Kind: "lookup", Arg: byShard[warm]}}); got[0] != entryFor(byShard[warm], 0).Cid.String() {
+			t.Fatalf("harness: warm-up lookup: %v", got)
+		}
+		release := make(chan struct{})
+		st.Park, st.ParkedNow = map[cid.Cid]chan struct{}{slow: release}, nil
+		st.ResetLogs()
+		slowDone := make(chan []string, 1)
+		go func() {
+			// the user whose request is held back
+			slowDone <- c17RunScript(rn, []c17Op{{Kind: op, Arg: byShard[slow]}})
+		}()
+		// wait until the store has that request
+		for i := 0; ; i++ {
+			st.mu.Lock()
+			requested := len(st.ParkedNow) > 0
+			st.mu.Unlock()
+			if requested {
+				break
+			}
+			if i > 5000 {
+				t.Fatalf("harness: the %s never asked for child shard %s", op, slow)
+			}
+			time.Sleep(time.Millisecond)
+		}
+		othersDone := make(chan []string, 1)
+		go func() {
+			othersDone <- c17RunScript(rn, []c17Op{{Kind: "lookup", Arg: byShard[warm]}, {Kind: "lookup-node", Arg: byShard[third]}, {Kind: "lookup", Arg: "no-such-entry-in-" + byShard[warm]}})
+		}()
+		select {
+		case got := <-othersDone:
+			if got[0] != entryFor(byShard[warm], 0).Cid.String() || got[1] != entryFor(byShard[third], 0).Cid.String() || !strings.HasPrefix(got[2], "err:") {
+				t.Fatalf("C17: lookups made while another goroutine's %s waits for a block returned %v", op, got)
+			}
+		case <-time.After(20 * time.Second):
+			t.Fatalf("C17: while one goroutine's %s waits for the block of child shard %s (a slow request), lookups through an already loaded shard and through a third shard did not return within 20 s: users of the node are serialised behind the outstanding load", op, slow)
+		}
+		close(release)
+		select {
+		case got := <-slowDone:
+			want := c17RunScript(func() datamodel.Node { n, _ := loadReified(st.LinkSystem(), root, "unixfs"); return n }(), []c17Op{{Kind: op, Arg: byShard[slow]}})
+			if got[0] != want[0] {
+				t.Fatalf("C17: the held-back %s returned %q after its block arrived, alone it returns %q", op, got[0], want[0])
+			}
+		case <-time.After(20 * time.Second):
+			t.Fatalf("C17: the held-back %s did not return within 20 s of its block being served", op)
+		}
+		st.Park = nil
 	}
 }
